@@ -7,7 +7,7 @@ RULE = ("unroll: loop-heavy programs (nesting <= 5, counts 1..5, with/without ':
         "state-changing commands; loops with omitted count whose body starts with a macro / variable / function call) and the generator-side textual unrolling of the same AST are both compiled by the real pipeline: the bytes must be "
         "identical (the property's own statement); sem: the same programs against Spec.Core.sem (decoded notes); omitted count = 2. "
         "non-trivial = distinct outputs of programs whose execution takes >= 1 backward jump (a loop with count >= 2)")
-ASSUMPTIONS = ["loop counts are literal (variable counts are exercised by C11's stream)", "a macro call inside a tuplet is outside the checked domain (known limitation D#37b, see DESIGN)"]
+ASSUMPTIONS = ["loop counts are literals, parenthesised literals or variables with values 1..5", "a macro call inside a tuplet is outside the checked domain (known limitation D#37b, see DESIGN)"]
 TRUSTED = ["the generator's textual unrolling mirrors Props.C05.unrollL (same definition, Python)"]
 
 def unroll_cmds(cs):
@@ -29,6 +29,13 @@ def has_jump(cs):
     for c in cs:
         if c[0] == 'loop' and (c[1] >= 2 or has_jump(c[2]) or has_jump(c[3] or [])): return True
         if c[0] in ('sub', 'div', 'chord') and has_jump(c[1]): return True
+    return False
+
+def loop_in_div(cs, inside=False):
+    for c in cs:
+        if c[0] == 'loop' and (inside or loop_in_div(c[2], inside) or loop_in_div(c[3] or [], inside)): return True
+        if c[0] == 'div' and loop_in_div(c[1], True): return True
+        if c[0] in ('sub', 'chord') and loop_in_div(c[1], inside): return True
     return False
 
 def gen_loopy(rng, depth):
@@ -58,12 +65,28 @@ def streams(tier, rng, P, only=None, cases=None):
             src = mml.pr(prog)
             if rng.random() < 0.3: src = re.sub(r"\[2 (?![(=0-9])", "[ ", src)    # omitted count = 2 ("[ (" would read the parenthesis as the count)
             un = mml.pr(unroll_cmds(prog))
+            decl = ""
+            if rng.random() < 0.3 and not loop_in_div(prog):
+                # (a tuplet counts its elements when the text is read, so a loop inside one needs a literal count)
+                # loop counts given by a variable or an expression instead of a literal: `[(N) …]`, `[=N …]`, `[(3) …]` (the count slot reads one value, not an expression)
+                names = iter(["CntA", "CntB", "CntC", "CntD", "CntE", "CntF", "CntG", "CntH"])
+                def repl(mo):
+                    nonlocal decl
+                    k = int(mo.group(1)); r = rng.random()
+                    if r < 0.4: return mo.group(0)
+                    if r < 0.55: return "[(%d) " % k
+                    nm = next(names, None)
+                    if nm is None: return mo.group(0)
+                    decl += "Int %s=%d; " % (nm, k)
+                    return ("[(%s) " if r < 0.85 else "[=%s ") % nm
+                src = re.sub(r"\[(\d+) ", repl, src)
             wrap = rng.random()
             if wrap < 0.15:       # inside a macro body
                 src, un = "#A={%s} #A r #A" % src, "#A={%s} #A r #A" % un
             elif wrap < 0.25:
-                src, un = "STR M={%s} M" % src, "STR M={%s} M" % un
-            cs.append(dict(req="compile2 %s %s" % (hx(src), hx(un)), src=src, un=un, show=src, jump=has_jump(prog), sexp=mml.sexp(prog) if wrap >= 0.25 else None, key="u%d" % i, prog=prog if wrap >= 0.25 else None))
+                src, un = "STR Mcr={%s} Mcr" % src, "STR Mcr={%s} Mcr" % un
+            src = decl + src
+            cs.append(dict(req="compile2 %s %s" % (hx(src), hx(un)), src=src, un=un, show=src, jump=has_jump(prog), sexp=mml.sexp(prog) if wrap >= 0.25 else None, key="u%d" % i, prog=(prog if wrap >= 0.25 and not decl else None)))
         # loops with the count omitted whose body starts with a macro / string-variable / function call
         for j in range(40 if big else 12):
             kind = rng.choice(["var", "hash", "str", "func"]); body = rng.choice(["c e", "o5c", "d8 r8", "v100 g"]); tail = rng.choice(["d", "d e", "r"])
